@@ -15,7 +15,8 @@ type Value struct {
 	L   []*Term
 	LV  *LValue  // pointer values with a Go-side address
 	Clo *Closure // func values known on the path
-	Orig string  // provenance of func values: "global:<pkg>.<Var>"
+	Orig string  // provenance of func values: "global:<pkg>.<Var>" or "field:<Type>.<field>"
+	OrigObj *Term // for field provenance: the object the func value was loaded from
 }
 
 type Closure struct {
@@ -327,11 +328,52 @@ func iteValue(c *Term, a, b *Value) *Value {
 
 // ---- heap ----
 
+// refHeaps: heap arrays whose leaves are references (name -> number of index levels).
+var refHeaps = map[string]int{}
+
+func isRefLeaf(sp LeafSpec) bool {
+	return sp.Kind == "arr" || sp.Kind == "data" || (sp.Kind == "" && sp.GoT != nil && sp.Sort == SInt && !isInteger(sp.GoT) && !isFloat(sp.GoT))
+}
+
+// allocBoundFact: every reference stored anywhere in heap array h was allocated before the watermark wm.
+func allocBoundFact(h *Term, name string, wm *Term) {
+	levels, ok := refHeaps[name]
+	if !ok || levels == 0 {
+		return
+	}
+	var vars []*Term
+	sel := h
+	srt := h.sort
+	for i := 0; i < levels; i++ {
+		is, es, ok := arrayParts(srt)
+		if !ok {
+			return
+		}
+		v := BoundVar(fmt.Sprintf("ab!%d", i), is)
+		vars = append(vars, v)
+		sel = Select(sel, v)
+		srt = es
+	}
+	if sel.sort != SInt {
+		return
+	}
+	addFact(h, Forall(vars, Le(sel, wm), []*Term{sel}))
+}
+
 func (s *State) heapArr(name string, sort Sort) *Term {
 	if h, ok := s.heap[name]; ok {
 		return h
 	}
 	h := Const("H0!"+name, sort)
+	allocBoundFact(h, name, Const("wm0", SInt))
+	s.heap[name] = h
+	return h
+}
+
+// freshHeap replaces heap array `name` by an unconstrained one (havoc); stored references are below the current watermark.
+func (s *State) freshHeap(prefix, name string, sort Sort) *Term {
+	h := Fresh(prefix+name, sort)
+	allocBoundFact(h, name, s.wm)
 	s.heap[name] = h
 	return h
 }
@@ -359,6 +401,9 @@ func heapKeys(base string, t types.Type, idxSorts ...Sort) []struct {
 		s := sp.Sort
 		for i := len(idxSorts) - 1; i >= 0; i-- {
 			s = ArrSort(idxSorts[i], s)
+		}
+		if isRefLeaf(sp) {
+			refHeaps[base+sp.Suffix] = len(idxSorts)
 		}
 		out = append(out, struct {
 			name string
@@ -597,6 +642,8 @@ func (s *State) assumeAllocated(v *Value) {
 // nonNilIfaces: interface types declared `nonnil` in a contract file (values loaded from memory or received are assumed non-nil).
 var nonNilIfaces = map[string]bool{}
 
+var mergeHeapStrict = true
+
 // ---- merging ----
 
 func lvEqual(a, b *LValue) bool {
@@ -708,6 +755,18 @@ func tryMerge(a, b *State) *State {
 	for g, va := range a.ghost {
 		if vb, ok := b.ghost[g]; ok && !mergeable(va, vb) {
 			return nil
+		}
+	}
+	// Heaps that differ are not merged: ite-terms over (arrays of) arrays make the array theory reasoning of the
+	// solvers explode. Such states continue as separate paths.
+	if mergeHeapStrict {
+		if len(a.heap) != len(b.heap) {
+			return nil
+		}
+		for h, ta := range a.heap {
+			if tb, ok := b.heap[h]; !ok || tb != ta {
+				return nil
+			}
 		}
 	}
 	n := &State{}
